@@ -1,9 +1,10 @@
 #!/bin/sh
 # Offline setup: warm the builds the checks use (everything is rebuilt from /repo on every check anyway).
-set -e
 cd "$(dirname "$0")"
 export CARGO_NET_OFFLINE=true
 mkdir -p .build out evidence
 cp -f /repo/Cargo.lock krt/Cargo.lock 2>/dev/null || true
+cp -f /repo/Cargo.lock kgen/harness/Cargo.lock 2>/dev/null || true
 (cd krt && cargo build --offline --target-dir ../.build/krt-native --bin replay >/dev/null 2>&1 || true)
+(cd kgen/harness && cargo build --offline --target-dir ../../.build/kgen-native --bin replay >/dev/null 2>&1 || true)
 exit 0
